@@ -275,6 +275,14 @@ impl World for Tok {
                 }
             }
         }
+        if !th {
+            // the holder named as its own spender (thorough has the full (0,0) pair): no self-allowance
+            // exists unless approved, and the call still needs the holder's authorization
+            v.push(Op::TransferFrom { s: 0, from: 0, to: 1, a: 1 });
+            if !vault && self.flavour != Flavour::BlockList && self.flavour != Flavour::Rwa {
+                v.push(Op::BurnFrom { s: 0, from: 0, a: 1 });
+            }
+        }
         for (from, s) in &pairs {
             let al = o.allow[*from][*s];
             for to in 0..N {
